@@ -48,6 +48,10 @@ def _lookalike_f2():
     return f2
 
 
+def fscale(x, y, *, scale=1.0):
+    return scale * (x + 2 * y)
+
+
 def fa(x, y, z, table=None):
     return 1.0 + table[: len(np.atleast_1d(x))] * 0.0 + float(table[1000])
 
@@ -333,6 +337,39 @@ def check_tree(tree, rng, V, C):
             C["swapped_operand_equality_checks"] = C.get("swapped_operand_equality_checks", 0) + 1
             if tree[1] in ("-", "/", "**") and comp == build(swapped):
                 viol("swapped_operands_equal", "equality_not_structural", {"op": tree[1], "swapped": text(swapped)})
+        # the SAME operand objects under another operator are another expression (a + b is not a - b, a * 2 is not a ** 2)
+        if tree[0] == "op":
+            sh = {}
+            first = build(tree, sh)
+            for op2 in OPS:
+                if op2 == tree[1]:
+                    continue
+                C["shared_operand_inequality_checks"] = C.get("shared_operand_inequality_checks", 0) + 1
+                second = build(("op", op2, tree[2], tree[3]), sh)  # leaves come out of `sh`: identical objects
+                if first == second or not (first != second):
+                    viol("same_operands_other_operator_equal", "equality_not_structural", {"op": tree[1], "other_op": op2})
+                    break
+        # numbers are compared as numbers: an expression with 1e-9 is not the expression with 3e-9, 2 is not 2.00001
+        if tree[0] == "op" and (is_number(tree[2]) != is_number(tree[3])):
+            sh = {}
+            side = 2 if is_number(tree[2]) else 3
+            pnode = tree[5 - side]
+            for v1, v2 in ((1e-9, 3e-9), (1000.0, 1000.005), (2, 2.00001), (0.0, 1e-12)):
+                C["close_number_inequality_checks"] = C.get("close_number_inequality_checks", 0) + 1
+                pobj = build(pnode, sh)
+                e1 = OPS[tree[1]](v1, pobj) if side == 2 else OPS[tree[1]](pobj, v1)
+                e2 = OPS[tree[1]](v2, pobj) if side == 2 else OPS[tree[1]](pobj, v2)
+                if e1 == e2:
+                    viol("close_numbers_equal", "equality_not_structural", {"op": tree[1], "numbers": [v1, v2], "number_on": "left" if side == 2 else "right"})
+                    break
+        # ... and so are numeric keyword arguments of a leaf
+        import tdgl as _tdgl
+
+        C["close_number_inequality_checks"] = C.get("close_number_inequality_checks", 0) + 1
+        for v1, v2 in ((1e-9, 3e-9), (1000.0, 1000.005)):
+            if (_tdgl.Parameter(fscale, scale=v1) * comp) == (_tdgl.Parameter(fscale, scale=v2) * comp) or _tdgl.Parameter(fscale, scale=v1) == _tdgl.Parameter(fscale, scale=v2):
+                viol("close_kwargs_equal", "equality_not_structural", {"kwargs": [v1, v2]})
+                break
         # a tree that differs in one leaf which merely PRINTS the same (same function name, other function)
         if "P2" in text(tree):
             import tdgl
